@@ -445,7 +445,7 @@ func cmdCheck(args []string) int {
 		} else if len(hr.Violations) > 0 {
 			status = fmt.Sprintf("%d sat obligation(s)", len(hr.Violations))
 		}
-		fmt.Printf("  %-44s paths=%-5d obl=%-5d queries=%-5d %.1fs  %s\n", hr.Name, hr.Paths, hr.Obligations, hr.Queries, hr.WallSec, status)
+		fmt.Printf("  %-5s %-44s paths=%-5d obl=%-5d queries=%-5d %.1fs  %s\n", r.task.lg.g.Name, hr.Name, hr.Paths, hr.Obligations, hr.Queries, hr.WallSec, status)
 	})
 
 	return finishCheck(ps, *tier, seed, t0, work, lgs, results, *noReplay, re != nil)
@@ -763,7 +763,7 @@ func writeEvidence(ps *PropSpec, tier string, seed int, wall float64, results []
 	perHarness := []interface{}{}
 	for _, r := range results {
 		hr := r.res
-		perHarness = append(perHarness, map[string]interface{}{"harness": hr.Name, "paths": hr.Paths, "obligations": hr.Obligations, "queries": hr.Queries,
+		perHarness = append(perHarness, map[string]interface{}{"harness": hr.Name, "group": r.task.lg.g.Name, "paths": hr.Paths, "obligations": hr.Obligations, "queries": hr.Queries,
 			"solver_s": round2(hr.SolverSec), "wall_s": round2(hr.WallSec), "reached": hr.Reached, "sat_obligations": len(hr.Violations), "error": hr.Error})
 		if len(hr.Witnesses) > 0 && len(samples) < 12 {
 			samples = append(samples, map[string]interface{}{"kind": "path witness (input driving one feasible path; replayed natively)", "harness": hr.Name, "inputs": hr.Witnesses[0].Inputs, "observed": hr.Witnesses[0].Observe})
